@@ -409,6 +409,14 @@ func (c *GroupCoordinator) OffsetFetch(ctx context.Context, req *kmsg.OffsetFetc
 			if err != nil {
 				code = protocol.UNKNOWN_SERVER_ERROR
 			}
+			if err == nil && offset == 0 && metadataStr == "" {
+				// The stores report a missing commit as offset 0 with empty
+				// metadata, the same as a commit at offset 0. Kafka requires -1
+				// for a partition without a committed offset.
+				if committed, lerr := c.hasCommittedOffset(ctx, req.Group, topic.Topic, partID); lerr == nil && !committed {
+					offset = -1
+				}
+			}
 			partResp := kmsg.NewOffsetFetchResponseTopicPartition()
 			partResp.Partition = partID
 			partResp.Offset = offset
@@ -420,6 +428,26 @@ func (c *GroupCoordinator) OffsetFetch(ctx context.Context, req *kmsg.OffsetFetc
 		resp.Topics = append(resp.Topics, topicResp)
 	}
 	return resp, nil
+}
+
+// hasCommittedOffset reports whether any offset was ever committed for the
+// group/topic/partition.
+func (c *GroupCoordinator) hasCommittedOffset(ctx context.Context, group, topic string, partition int32) (bool, error) {
+	if direct, ok := c.store.(interface {
+		HasConsumerOffset(ctx context.Context, group, topic string, partition int32) (bool, error)
+	}); ok {
+		return direct.HasConsumerOffset(ctx, group, topic, partition)
+	}
+	offsets, err := c.store.ListConsumerOffsets(ctx)
+	if err != nil {
+		return false, err
+	}
+	for _, o := range offsets {
+		if o.Group == group && o.Topic == topic && o.Partition == partition {
+			return true, nil
+		}
+	}
+	return false, nil
 }
 
 func (c *GroupCoordinator) DescribeGroups(ctx context.Context, req *kmsg.DescribeGroupsRequest) (*kmsg.DescribeGroupsResponse, error) {
